@@ -184,6 +184,13 @@ def run(ch: Checker) -> None:
             tgt = None
             if isinstance(n_, ast.Subscript) and attr_chain(n_.value) == TABLE and norm(n_.slice) == pid and isinstance(n_.ctx, (ast.Load, ast.Del)):
                 tgt = n_
+            # TABLE.pop(id) is `del TABLE[id]` (KeyError for an unknown id); TABLE.pop(id, default) removes without needing the id
+            if isinstance(n_, ast.Call) and isinstance(n_.func, ast.Attribute) and n_.func.attr == 'pop' and attr_chain(n_.func.value) == TABLE and n_.args and norm(n_.args[0]) == pid:
+                deletes[fn.name] = '%s.pop(%s)' % (TABLE, pid)
+                if len(n_.args) == 1 and not n_.keywords:
+                    if not any(in_body and any(exc.handler_catches(h, KeyError) is True for h in t.handlers) for t, in_body in enclosing_handlers(fn.node, n_)):
+                        needs_present[fn.name] = norm(n_)
+                continue
             if tgt is None:
                 continue
             caught = False
@@ -253,6 +260,12 @@ def run(ch: Checker) -> None:
                     if k3 not in present:
                         bad5 = ('`%s` on a path where the id is not known to be present' % norm(node), p.describe(20))
                     present.discard(k3)
+                if chn == TABLE and k2 == 'call:pop' and node.args:      # type: ignore[attr-defined]
+                    k3 = norm(node.args[0])  # type: ignore[attr-defined]
+                    if k3 not in present and len(node.args) == 1:  # type: ignore[attr-defined]
+                        bad5 = ('`%s` on a path where the id is not known to be present' % norm(node), p.describe(20))
+                    present.discard(k3)
+                    events.append('remove')
             for c in walk_no_nested(nd.ast):
                 if isinstance(c, ast.Call) and isinstance(c.func, ast.Attribute) and isinstance(c.func.value, ast.Name) and c.func.value.id == 'self' and c.args:
                     name = c.func.attr
